@@ -320,3 +320,28 @@ def select(tier, seed):
     rng = random.Random(seed * 7919 + 1)
     q += rng.sample(rest, 2)
     return q
+
+
+def candidate_programs():
+    """Instantiations just OUTSIDE the guards of the libfunc specialisation (the unmodified compiler rejects them:
+    they are then recorded as skipped).  If a compiler accepts one, the adversarial-hint layer attacks it like any
+    other program: a guard that a soundness argument silently relies on must not be weakened."""
+    out = []
+    divs = [((0, 2 ** 250 - 1), (2 ** 127, 2 ** 127 + 2 ** 128 - 1)), ((0, 2 ** 250 - 1), (1, 2 ** 129)),
+            ((0, 2 ** 128 - 1), (2 ** 128, 2 ** 129)), ((0, 2 ** 251 - 1), (2 ** 127 + 1, 2 ** 128 + 2)),
+            ((0, 2 ** 200), (2 ** 100, 2 ** 128 + 1))]
+    for a, b in divs:
+        q = (a[0] // b[1], a[1] // b[0])
+        r = (0, b[1] - 1)
+        out.append({"id": f"cand/bounded_div_rem_{rname(a)}_{rname(b)}", "funcs": "foo", "auto_gas": True, "inputs_per_fn": 12,
+                    "source": f"{BI}type DivRemType = ({tyname(q, True)}, {tyname(r, True)});\n#[allow(extern_outside_corelib)]\n"
+                              f"extern fn bounded_int_div_rem<T1, T2>(\n    a: T1, b: NonZero<T2>,\n"
+                              f") -> DivRemType implicits(RangeCheck) nopanic;\n"
+                              f"fn foo(a: {tyname(a, True)}, b: NonZero<{tyname(b, True)}>) -> DivRemType {{\n    bounded_int_div_rem(a, b)\n}}\n"})
+    lim = 2 ** 123 + 17 * 2 ** 64 + 1
+    for b in [(0, lim + 4), (2 ** 128 - lim - 7, 2 ** 128 - 1), (-lim - 3, -1), (5, lim + 9)]:
+        out.append({"id": f"cand/downcast_felt_{rname(b)}", "funcs": "foo", "auto_gas": True, "inputs_per_fn": 12,
+                    "source": f"{BI}#[allow(extern_outside_corelib)]\n"
+                              f"extern fn downcast<T, S>(index: T) -> Option<S> implicits(RangeCheck) nopanic;\n"
+                              f"fn foo(index: felt252) -> Option<{tyname(b, True)}> {{\n    downcast(index)\n}}\n"})
+    return out
